@@ -2,6 +2,7 @@
 CONSTANT SubmeshStep = 48
 CONSTANT AnimBoneRule = "table"
 CONSTANT RelocAdvanceAlways = FALSE
+CONSTANT CollectSkipRule = "all-empty"
 CONSTANT SaveTruncates = FALSE
 CONSTANT ViewBatchBytes = 24
 INIT Init
